@@ -35,15 +35,17 @@ def build_mesh(c):
         j = (2 * k + c.get("special_offset", 0)) % n
         dens[j] = SPECIAL[name]
     dens = dens.astype({"f4": np.float32, "i8": np.int64, "i4": np.int32}.get(c.get("dens_dtype"), np.float64))
-    vel = np.stack([10.0 + np.arange(n), 200.0 - 3.0 * np.arange(n), -50.0 + 7.0 * np.arange(n)], axis=1)[:, : tree.ndim]
+    # (fractional values: a buffer of another element type would not hold them)
+    vel = np.stack([10.25 + np.arange(n), 200.5 - 3.0 * np.arange(n), -50.125 + 7.0 * np.arange(n)], axis=1)[:, : tree.ndim]
     mesh = osyris.Datagroup()
     mesh["position"] = osyris.Vector(*[centres[:, a].copy() for a in range(tree.ndim)], unit=unit)
     mesh["dx"] = osyris.Array(sizes.copy(), unit=unit)
     mesh["density"] = osyris.Array(dens.copy(), unit="g/cm**3")
     mesh["velocity"] = osyris.Vector(*[vel[:, a].copy() for a in range(tree.ndim)], unit="km/s")
     with np.errstate(all="ignore"):
-        mesh["mass"] = osyris.Array(dens.astype(np.float64) * sizes**tree.ndim, unit="g")
-    return mesh, centres, sizes, {"density": dens.astype(np.float64), "velocity": vel}
+        mass = dens.astype(np.float64) * sizes**tree.ndim
+        mesh["mass"] = osyris.Array(mass.copy(), unit="g")
+    return mesh, centres, sizes, {"density": dens.astype(np.float64), "velocity": vel, "mass": mass}
 
 
 def direction_object(spec):
@@ -59,7 +61,7 @@ def direction_object(spec):
     raise KeyError(kind)
 
 
-def call_map(c, mesh, extra_layers=False):
+def call_map(c, mesh, extra_layers=False, first_layer=None):
     """-> (Plot or exception, basis (n,u,v) as float arrays or None)"""
     import osyris
     from osyris.plot.direction import get_direction
@@ -89,9 +91,12 @@ def call_map(c, mesh, extra_layers=False):
         kw["operation"] = c["operation"]
     if ndim == 3:
         kw["direction"] = direction_object(c.get("direction", "z"))
-    layers = [mesh.layer("density")]
+    layers = [mesh.layer("density") if first_layer is None else first_layer]
     if c.get("vector_layer", False):
         layers.append(mesh.layer("velocity", mode="vec"))
+    if c.get("later_float_layer", False):
+        # a float layer after layers of another element type (levels and cpu numbers are integers)
+        layers.append(mesh.layer("mass"))
     if c.get("second_group", False):
         # a later layer taken from another Datagroup on the same cells, with a different velocity field and masses
         # (e.g. a second fluid): the geometry and the orientation of the map are those of the first layer
